@@ -193,3 +193,76 @@ func verifIsValid(r *Rule) bool {
 	c := *r
 	return IsValidRule(&c) == nil
 }
+
+// VerifC13FieldDiff: a reload whose rule differs from the rule in force in exactly ONE field that matters to
+// its control behaviour puts the new rule in force (the controller deciding afterwards is bound to the new
+// values); a reload that differs in nothing reports "unchanged".
+func VerifC13FieldDiff() {
+	rt.SetClockMs(10000000)
+	mk := func() *Rule {
+		return &Rule{Resource: "A", MetricType: []MetricType{Concurrency, QPS}[rt.Choice(2)], ControlBehavior: []ControlBehavior{Reject, Throttling}[rt.Choice(2)],
+			ParamIndex: 1, Threshold: 5, MaxQueueingTimeMs: 10, BurstCount: 2, DurationInSec: 1, ParamsMaxCapacity: 5,
+			SpecificItems: map[interface{}]int64{"x": 1}}
+	}
+	base := mk()
+	snapL := verifCopyList([]*Rule{base})
+	if _, err := LoadRules([]*Rule{base}); err != nil {
+		rt.Assert(false, "initial load failed")
+		return
+	}
+	nr := verifCopyList(snapL)[0]
+	d := 1 + int64(rt.U32n("delta", 3))
+	same := false
+	switch rt.Choice(12) {
+	case 0: // no edit at all
+		same = true
+	case 1:
+		nr.MetricType = QPS - nr.MetricType
+	case 2:
+		nr.ControlBehavior = Throttling - nr.ControlBehavior
+	case 3:
+		nr.ParamIndex += int(d)
+	case 4:
+		nr.ParamIndex, nr.ParamKey = 0, "k"
+	case 5:
+		nr.Threshold += d
+	case 6:
+		if nr.ControlBehavior != Throttling {
+			return // the field is not read by the other behaviour
+		}
+		nr.MaxQueueingTimeMs += d
+	case 7:
+		if nr.ControlBehavior != Reject {
+			return
+		}
+		nr.BurstCount += d
+	case 8:
+		nr.DurationInSec += d
+	case 9:
+		nr.ParamsMaxCapacity += d
+	case 10:
+		nr.SpecificItems["x"] += d
+	case 11:
+		delete(nr.SpecificItems, "x")
+		nr.SpecificItems["y"] = 1
+	}
+	if !verifIsValid(nr) {
+		rt.Assert(false, "a single-field edit of the populated base rule stays valid")
+		return
+	}
+	want := verifCopyList([]*Rule{nr})[0]
+	changed := false
+	if rt.Bool("perResource") {
+		changed, _ = LoadRulesOfResource("A", []*Rule{nr})
+	} else {
+		changed, _ = LoadRules([]*Rule{nr})
+	}
+	rt.Assert(changed == !same, "a reload reports a change exactly when a field differs")
+	pub, cbs := GetRulesOfResource("A"), getTrafficControllersFor("A")
+	rt.Reach("c13.fielddiff")
+	if len(pub) != 1 || len(cbs) != 1 {
+		rt.Assert(false, "one rule and one controller in force after the reload")
+		return
+	}
+	rt.Assert(verifSame(&pub[0], want) && verifSame(cbs[0].BoundRule(), want), "after a reload that edits one field the enforced controller is bound to the new values")
+}
